@@ -2,6 +2,8 @@ package props
 
 import (
 	"fmt"
+	"strconv"
+	"strings"
 	"testing"
 
 	"github.com/woodsbury/jmespath"
@@ -291,4 +293,109 @@ func init() {
 		return c06Run(r.Calls[0].Expr, ex.Docs, ex.Ops, r.Loose, ex.Multi)
 	}
 	_ = jmespath.ErrSyntax
+}
+
+// longText builds an expression of about n bytes of the given kind.
+func longText(kind string, n int) string {
+	switch kind {
+	case "blank-padding":
+		return "a" + strings.Repeat(" ", n)
+	case "leading-blanks":
+		return strings.Repeat("\n", n) + "a"
+	case "raw-string":
+		return "'" + strings.Repeat("x", n) + "'"
+	case "identifier":
+		return strings.Repeat("k", n)
+	case "quoted-identifier":
+		return "\"" + strings.Repeat("é", n/2) + "\""
+	case "json-string":
+		return "`\"" + strings.Repeat("s", n) + "\"`"
+	case "json-array":
+		return "`[" + strings.Repeat("1,", n/2) + "1]`"
+	case "invalid-padded":
+		return "a[" + strings.Repeat(" ", n)
+	case "invalid-tail":
+		return "a" + strings.Repeat(" ", n) + ")"
+	}
+	panic("unknown long kind " + kind)
+}
+
+var longKinds = []string{"blank-padding", "leading-blanks", "raw-string", "identifier", "quoted-identifier", "json-string", "json-array", "invalid-padded", "invalid-tail"}
+
+// C06 (long texts): for expressions of 64 KiB, 1 MiB and 16 MiB (+1) the three
+// entry points still agree: MustCompile panics exactly when Compile fails, and
+// the compiled expression returns what one-shot Search returns. (A length cap
+// added to one entry point and not to another shows here; C04 checks that the
+// valid ones are accepted at all.)
+func TestC06_Long(t *testing.T) {
+	c := collector("C06", "long")
+	shard, _ := strconv.Atoi(getenv("VERIF_SHARD", "0"))
+	nshards, _ := strconv.Atoi(getenv("VERIF_NSHARDS", "1"))
+	i := 0
+	for _, kind := range longKinds {
+		for _, n := range []int{1<<16 + 1, 1<<20 + 1, 1<<24 + 1} {
+			i++
+			if i%nshards != shard {
+				continue
+			}
+			c.Case()
+			call := run.Call{API: "compile", Expr: "long:" + kind + ":" + strconv.Itoa(n)}
+			run.Watch(c, "long", call)
+			if msg := c06LongVerdict(kind, n); msg != "" {
+				c.Fail(t, run.Replay{Check: "long", Kind: "custom:c06-long", Calls: []run.Call{call}, Message: fmt.Sprintf("%s of %d bytes: %s", kind, n, msg)}, kind)
+				return
+			}
+			c.NonTrivial(kind+strconv.Itoa(n), func() any { return map[string]any{"kind": kind, "bytes": n} })
+		}
+	}
+}
+
+func c06LongVerdict(kind string, n int) string {
+	text := longText(kind, n)
+	doc := map[string]any{"a": "v", strings.Repeat("k", n): "long key"}
+	ce, co := run.Compile(text)
+	if co.Panic != "" {
+		return "Compile panicked: " + truncate(co.Panic, 200)
+	}
+	mp, me := run.MustCompilePanics(text)
+	if mp != co.Failed {
+		return fmt.Sprintf("MustCompile panics = %v but Compile fails = %v (%s)", mp, co.Failed, truncate(co.String(), 200))
+	}
+	valid := !strings.HasPrefix(kind, "invalid")
+	if valid == co.Failed {
+		return fmt.Sprintf("the text is valid = %v but Compile fails = %v (%s)", valid, co.Failed, truncate(co.String(), 200))
+	}
+	one := run.Search(text, doc)
+	if one.Panic != "" {
+		return "Search panicked: " + truncate(one.Panic, 200)
+	}
+	if one.Failed != co.Failed {
+		return fmt.Sprintf("one-shot Search fails = %v but Compile fails = %v", one.Failed, co.Failed)
+	}
+	if ce != nil {
+		for _, e := range []*jmespath.Expression{ce, me} {
+			if e == nil {
+				continue
+			}
+			o := run.ExprSearch(e, doc)
+			if msg := run.SameOutcome(one, o, false); msg != "" {
+				return "compiled vs one-shot: " + truncate(msg, 300)
+			}
+		}
+	}
+	return ""
+}
+
+func init() {
+	customReplays["custom:c06-long"] = func(r run.Replay) string {
+		if len(r.Calls) == 0 {
+			return "malformed replay"
+		}
+		parts := strings.Split(r.Calls[0].Expr, ":")
+		if len(parts) != 3 {
+			return "malformed replay"
+		}
+		n, _ := strconv.Atoi(parts[2])
+		return c06LongVerdict(parts[1], n)
+	}
 }
